@@ -11,7 +11,10 @@ written by `c06 --prep`):
 * `met T <47 values of MetalIn>`
 * `hhe aH aHe jH jHe nH AHe T`  (`hhex`, `cellx`, `tempx`: same ops on inputs outside the stated domain)
 * `cell jfac n T AHe mean[14] a[14] ct[19]`
-* `temp <19 scalars> mean[14] heat[2] met0[12] aH8 aHe8 ntab (T h0 he0 gain loss f[12])*ntab`
+* `temp <19 scalars> mean[14] heat[2] met0[12] aH8 aHe8 ntab (T aH aHe a[12] ct[19] L)*ntab`
+  (the balance function is the MODEL's `balModel`; only the rates at `T` and the value `L` of
+  `LineCoolingData::get_cooling` are tabulated)
+* `bal T n j[14] hH hHe AHe AC AN AO ANe AS pah crfac crscale z aH aHe a[12] ct[19] L`
 * `newcell` (the harness starts a new history on a fresh re-used cell; no model state)
 * `abort …` (the implementation aborted while the line was prepared)
 -/
@@ -42,18 +45,31 @@ def showL (l : List Float) : String := " ".intercalate (l.map showF)
 
 def zeros12 : List Float := List.replicate 12 0.0
 
-/-- balance table lookup by the bit pattern of the temperature; a miss yields NaNs -/
-def lookup (tab : Array (Nat × Bal Float (List Float))) (T : Float) : Bal Float (List Float) :=
-  match tab.find? (fun e => e.1 == bitsOf T) with
-  | some e => e.2
-  | none => ⟨nan, nan, nan, nan, List.replicate 12 nan⟩
+instance : HasCbrt Float := ⟨Float.cbrt⟩
 
-def parseTab (a : Array Float) (raw : Array String) (o n : Nat) : Array (Nat × Bal Float (List Float)) :=
-  (Array.range n).map fun k =>
-    let b := o + 17 * k
-    (nat! (raw.getD b "0"),
-      ⟨getF a (b + 1), getF a (b + 2), getF a (b + 3), getF a (b + 4),
-        (List.range 12).map fun i => getF a (b + 5 + i)⟩)
+def withJ (m : MetalIn Float) (j : Nat → Float) : MetalIn Float :=
+  { m with jCp1 := j 0, jCp2 := j 1, jNn := j 2, jNp1 := j 3, jNp2 := j 4, jOn := j 5, jOp1 := j 6,
+           jNen := j 7, jNep1 := j 8, jSp1 := j 9, jSp2 := j 10, jSp3 := j 11,
+           ne := 0.0, nh0 := 0.0, nhe0 := 0.0, nhp := 0.0 }
+
+def abundList (b : Abund Float) : List Float :=
+  [b.cII, b.cIII, b.nI, b.nII, b.nIII, b.oI, b.oII, b.oIII, b.neII, b.neIII, b.sII, b.sIII, b.sIV]
+
+/-- table of the temperature-dependent inputs: T bits ↦ index of the entry
+`T aH aHe a[12] ct[19] L` (35 tokens) in the line -/
+def parseRTab (raw : Array String) (o n : Nat) : Array (Nat × Nat) :=
+  (Array.range n).map fun k => (nat! (raw.getD (o + 35 * k) "0"), o + 35 * k)
+
+/-- the model's `compute_cooling_and_heating_balance` with rates and the line cooling value
+looked up by the bit pattern of the temperature; a miss yields NaNs -/
+def balFromTab (a : Array Float) (tab : Array (Nat × Nat)) (p : BalParams Float) (j : Nat → Float)
+    (crfac T : Float) : Bal Float (List Float) :=
+  match tab.find? (fun e => e.1 == bitsOf T) with
+  | some (_, b) =>
+    let r : BalRates Float := ⟨getF a (b + 1), getF a (b + 2), withJ (metalInOf a (b + 3 - 16)) j⟩
+    let o := balModel { p with crfac := crfac } r (fun _ _ _ => getF a (b + 34)) T
+    ⟨o.bal.h0, o.bal.he0, o.bal.gain, o.bal.loss, metList o.bal.met⟩
+  | none => ⟨nan, nan, nan, nan, List.replicate 12 nan⟩
 
 def clampTag (tmin : Float) (r : TempOut Float (List Float)) : String :=
   if r.tag != 2 then "special" else
@@ -93,7 +109,7 @@ def step (_ : Unit) (w : List String) : Unit × String :=
   let a := raw.map fl
   let g := getF a
   let op := match w.head? with
-    | some "hhex" => "hhe" | some "cellx" => "cell" | some "tempx" => "temp" | some o => o | none => ""
+    | some "hhex" => "hhe" | some "cellx" => "cell" | some "tempx" => "temp" | some "balx" => "bal" | some o => o | none => ""
   match op with
   | "h0" =>
     let r := h0HydrogenB (g 1) (g 2) (g 3)
@@ -108,7 +124,7 @@ def step (_ : Unit) (w : List String) : Unit × String :=
     ((), s!"met {showL (metList (metalFractions m))} #met-{dz}")
   | "hhe" =>
     let r := hHeSolve (g 1) (g 2) (g 3) (g 4) (g 5) (g 6) (g 7)
-    let cn := if r.chNeg then "-chneg" else ""
+    let cn := if r.offDom then "-offdom" else ""
     let bucket := if r.niter == 0 then "0" else if r.niter ≤ 5 then "1to5" else if r.niter ≤ 10 then "6to10" else "11to20"
     if r.abort then ((), s!"hhe abort #hhe-abort{cn}")
     else ((), s!"hhe {showF r.h0} {showF r.he0} #hhe-it{bucket}{cn}")
@@ -127,22 +143,39 @@ def step (_ : Unit) (w : List String) : Unit × String :=
         (if (withDensities m (g 2) (g 4) r.h0 r.he0).ne > 0.0 then "-ne+" else "-ne0") else ""
     if r.abort then ((), s!"cell abort #cell-t{r.tag}-abort")
     else ((), s!"cell {showF r.h0} {showF r.he0} {showL (metList r.met)} #cell-t{r.tag}{cn}")
+  | "bal" =>
+    -- bal T n j[14] hH hHe AHe AC AN AO ANe AS pah crfac crscale z | aH aHe a[12] ct[19] L
+    let p : BalParams Float :=
+      { n := g 2, jH := g 3, jHe := g 4, hH := g 17, hHe := g 18, aHe := g 19, aC := g 20, aN := g 21,
+        aO := g 22, aNe := g 23, aS := g 24, pah := g 25, crfac := g 26, crscale := g 27, z := g 28 }
+    let r : BalRates Float := ⟨g 29, g 30, withJ (metalInOf a 15) (fun k => g (5 + k))⟩
+    let o := balModel p r (fun _ _ _ => g 62) (g 1)
+    let tag := (if o.ne > 0.0 then "ne+" else "ne0") ++ (if p.crfac > 0.0 then "-cr" else "") ++
+      (if o.offDom then "-offdom" else "") ++ (if o.bal.gain == 0.0 then "-g0" else "") ++ (if o.bal.loss == 0.0 then "-l0" else "")
+    if o.abort then ((), "bal abort #bal-abort")
+    else ((), s!"bal {showF o.bal.h0} {showF o.bal.he0} {showF o.bal.gain} {showF o.bal.loss} {showL (metList o.bal.met)} {showF o.ne} {showL (abundList o.abund)} #bal-{tag}")
   | "temp" =>
-    -- 1..19 scalars, 20..33 mean, 34..35 heat, 36..47 met0, 48 aH8, 49 aHe8, 50 ntab, 51.. table
+    -- 1..19 scalars, 20..33 mean, 34..35 heat, 36..47 met0, 48 aH8, 49 aHe8, 50 ntab,
+    -- 51.. table of (T aH aHe a[12] ct[19] L)
     let ntab := nat! (raw.getD 50 "0")
-    let tab := parseTab a raw 51 ntab
+    let tab := parseRTab raw 51 ntab
     let i : TempIn Float (List Float) :=
       { jfac := g 1, meanH := g 20, meanHe := g 21, n := g 3, Told := g 4, aHe := g 5,
         crfac := g 12, crcell := g 13, crlim := g 14, eps := g 17, tmin := g 18,
         maxit := nat! (raw.getD 19 "0"), alphaH8 := g 48, alphaHe8 := g 49,
         met0 := (List.range 12).map fun k => g (36 + k) }
-    let r := temperatureCell (fun _ T => lookup tab T) i
+    let p : BalParams Float :=
+      { n := g 3, jH := g 1 * g 20, jHe := g 1 * g 21, hH := g 2 * g 34, hHe := g 2 * g 35,
+        aHe := g 5, aC := g 6, aN := g 7, aO := g 8, aNe := g 9, aS := g 10, pah := g 11,
+        crfac := 0.0, crscale := g 15, z := g 16 }
+    let bal := balFromTab a tab p (fun k => g 1 * g (22 + k))
+    let r := temperatureCell bal i
     if r.abort then ((), s!"temp abort #temp-t{r.tag}-abort")
     else
       let met := if r.metZero then zeros12 else r.met
       let wt := if r.tag == 2 then
-          walkTag (walk (lookup tab) i.eps i.tmin i.maxit ⟨tempInit i.Told, 0.0, 0.0, 1.0, 0.0, i.met0⟩
-            [])
+          walkTag (walk (bal (crfacEff i.crfac i.crcell)) i.eps i.tmin i.maxit
+            ⟨tempInit i.Told, 0.0, 0.0, 1.0, 0.0, i.met0⟩ [])
         else ""
       ((), s!"temp {showF r.T} {showF r.h0} {showF r.he0} {showL met} #temp-t{r.tag}-{clampTag i.tmin r}{wt}")
   | "newcell" => ((), "newcell")
